@@ -35,3 +35,72 @@ func (r remapGood) Iter() Iter                { return r.Map.Iter() }
 type passThrough struct{ Map }
 
 var _ = []Map{base{}, remapBad{}, remapGood{}, passThrough{}}
+
+// two formats over the same records: one maps a range to consecutive values, the other to one value
+type group struct{ start, end rune; first int }
+
+type seq []group
+type many []group
+
+type seqIter struct {
+	data seq
+	i    int
+	off  rune
+}
+
+func (it *seqIter) Next() bool { return it.i < len(it.data) }
+func (it *seqIter) Char() (rune, int) {
+	g := it.data[it.i]
+	r, v := g.start+it.off, g.first+int(it.off)
+	if r == g.end {
+		it.i, it.off = it.i+1, 0
+	} else {
+		it.off++
+	}
+	return r, v
+}
+
+type manyIter struct {
+	data many
+	i    int
+	off  rune
+}
+
+func (it *manyIter) Next() bool { return it.i < len(it.data) }
+func (it *manyIter) Char() (rune, int) {
+	g := it.data[it.i]
+	r := g.start + it.off
+	if r == g.end {
+		it.i, it.off = it.i+1, 0
+	} else {
+		it.off++
+	}
+	return r, g.first
+}
+
+func (s seq) Lookup(r rune) (int, bool) {
+	for _, g := range s {
+		if g.start <= r && r <= g.end {
+			return g.first + int(r-g.start), true
+		}
+	}
+	return 0, false
+}
+func (s seq) Iter() Iter { return &seqIter{data: s} }
+
+// good: its own iterator
+type manyGood []group
+
+func (s manyGood) Lookup(r rune) (int, bool) {
+	for _, g := range s {
+		if g.start <= r && r <= g.end {
+			return g.first, true
+		}
+	}
+	return 0, false
+}
+func (s manyGood) Iter() Iter { return &manyIter{data: many(s)} }
+
+// bad: the many-to-one format enumerates with the iterator of the sequential one
+func (s many) Lookup(r rune) (int, bool) { return manyGood(s).Lookup(r) }
+func (s many) Iter() Iter                { return &seqIter{data: seq(s)} }
